@@ -404,7 +404,10 @@ def judge_neighbours(case):
                 exp = refinterp.run(b, envs[0])
             except TypeError:
                 exp = ("unroutable",)
-            if exp[0] == "return" and sum(1 for g in M.returns(b["body"])[exp[1]]["groups"] if float(g["w"]) > 0) >= 2:
+            shares = [float(g["w"]) for g in M.returns(b["body"])[exp[1]]["groups"]] if exp[0] == "return" else [1.0]
+            # two independent assignments of 64 units coincide with probability (sum of squared shares)^64: demand < 1e-12
+            # (a 100 : 1 statement puts all 64 units into the big group under most salts - found by a thorough run, see DESIGN 9)
+            if exp[0] == "return" and sum((w / sum(shares)) ** 2 for w in shares) <= 0.64:
                 units = ["unit-%d" % i for i in range(64)]
                 live_a = sut.compile_text(ta)[1]
                 va = [_canon(sut.call(live_a, dict(envs[0], **{free[0]: u}))) for u in units]
